@@ -302,7 +302,8 @@ def handleC17 : Handler := fun comp a impl =>
     some { model := model, verdict := v }
   | "relay.run", [cfg, evs] =>
     let (static, targets) := parseCfg cfg
-    let evl := splitOnChar evs ';'
+    -- `Jh` / `Lh`: an HLS player joins / leaves; to the rule a consumer is a consumer whatever its protocol
+    let evl := (splitOnChar evs ';').map fun e => if e == "Jh" then "J" else if e == "Lh" then "L" else e
     if impl == "panic" then some { model := "model-does-not-panic", verdict := "bad:harness-barrier-or-panic" } else
     let toks := impl.splitOn ";"
     let steps := (("init" :: evl).zip toks).map fun (e, t) => (parseToken e t, rawState t)
